@@ -746,6 +746,8 @@ MIDI_TRACK_METHODS = ["__init__", "end_of_track", "play_Note", "play_NoteContain
                       "set_tempo_event", "set_meter", "time_signature_event", "set_key", "key_signature_event",
                       "set_track_name", "track_name_event", "int_to_varbyte"]
 MIDI_FILE_METHODS = ["__init__", "get_midi_data", "header", "reset"]
+MIDI_READER_METHODS = ["MIDI_to_Composition", "parse_midi_file_header", "bytes_to_int", "parse_time_division", "parse_track",
+                       "parse_midi_event", "parse_track_header", "parse_midi_file", "parse_varbyte_as_int"]
 MIDI_WRITERS = ["write_Note", "write_NoteContainer", "write_Bar", "write_Track", "write_Composition"]
 
 def class_defaults(c, f=lstr):
@@ -783,6 +785,10 @@ def gen_midi(repo, f=lstrlit):
         fn = func(ft, w)
         rows.append("(%s, %s)" % (f(w + "(" + ast.unparse(fn.args) + ")"), llist(f(ast.unparse(x)) for x in body_wo_doc(fn))))
     out.append("def writerSources : List (List Char × List (List Char)) := " + llist(rows))
+    rt = parse(repo, "mingus/midi/midi_file_in.py")
+    rc = cls(rt, "MidiFile")
+    out.append("def readerDefaults : List (List Char × List Char) := " + class_defaults(rc, f))
+    out.append("def readerSources : List (List Char × List (List Char)) := " + src_table(rc, MIDI_READER_METHODS, f))
     out.append("end Mingus.Gen.Midi")
     return "\n".join(out) + "\n"
 
